@@ -4,10 +4,11 @@ import PromModel.Suites.HistSuite
   Suite `histbytes` (C11 stage 2): the bytes of integer histogram chunks.
   See harness/suites/histbytes/main.go for the op grammar:
     capp <cut> <t> <hist>  -> same | new | recoded      (chunk-appender emulation as in suite hist)
-    cbytes                 -> i:<hex of Bytes()> | f     per chunk, oldest first, joined by `|` (`-` if none)
+    cbytes                 -> i:<hex of Bytes()> | f:<hex of Bytes()>   per chunk (int / float histogram chunk),
+                              oldest first, joined by `|` (`-` if none)
   model: the layout-level appender (`Prom.Hist.appendHist`) decides the chunk contents, `Prom.HistChunk.encodeChunk`
          gives the bytes (byte-exact comparison with the real `HistogramChunk.Bytes()`).
-  judge: independent of the appended sequence — every byte string the implementation produced is decoded by the
+  judge: independent of the appended sequence — every integer chunk byte string the implementation produced is decoded by the
          model's transcription of `histogramIterator` and encodes back to exactly the same bytes
          (`histchunk_roundtrip`'s statement evaluated on real chunks).
 -/
@@ -21,7 +22,7 @@ deriving Inhabited
 
 def bytesStr (cs : List Chunk) : String :=
   if cs.isEmpty then "-" else
-  "|".intercalate (cs.reverse.map fun c => if c.float then "f" else "i:" ++ hexOfByteList (encodeChunk c))
+  "|".intercalate (cs.reverse.map fun c => (if c.float then "f:" else "i:") ++ hexOfByteList (encodeChunk c))
 
 def step (st : St) (line : String) : St × String :=
   match toks line with
@@ -61,7 +62,7 @@ def roundtrips (bytes : List Nat) : Bool :=
   | none => false
 
 def judgeChunk (k : Nat) (tok : String) : Option String :=
-  if tok = "f" ∨ tok = "-" then none
+  if tok.startsWith "f:" ∨ tok = "-" then none
   else if tok.startsWith "i:" then
     match bytesOfHex? (tok.drop 2).toString with
     | some bs => if roundtrips (bs.map (·.toNat)) then none else some s!"violation decode-encode op={k} chunk={tok}"
